@@ -124,7 +124,7 @@ def families(thorough):
     fam = []
     # the listener life-cycle of every protocol under held addresses, from an empty worker
     fam.append(("life", dict(listeners=["hA", "tC", "sD", "uE"], clusters=[], hfronts=[], tfronts=[], backends=[],
-                             verbs="VerbsFaults", maxreq=4 if thorough else 3), 0 if thorough else 5000))
+                             verbs="VerbsFaults", maxreq=4 if thorough else 3), 45000 if thorough else 5000))
     # one listener per run, deeper: refused activation, release, activation again, deactivate / remove / re-add in between
     for l in (ALL_LISTENERS if thorough else ["hA", "sD", "tC", "uE"]):
         fam.append(("deep_" + l, dict(listeners=[l], clusters=[], hfronts=[], tfronts=[], backends=[],
@@ -162,7 +162,7 @@ def replay_family(legs, idx, name, kw, sample, devs, seed):
                     refused += 1
     if n_kept == 0:
         raise vlib.ToolError("listen-faults generator %s: no transition with a held address" % name)
-    args = ["--threads", "8", "--seed", str(seed), "--index-base", str(1200000 + idx * 60000), "--faults"]
+    args = ["--threads", "8", "--seed", str(seed), "--index-base", str(150000 + idx * 50000), "--faults"]   # <= 45000 runs per process, <= 7 families
     if sample:
         args += ["--sample", str(sample)]
     out = vlib.run_harness(legs.bins["replay_workerctl"], args, stdin_path=kept, timeout=2400)
@@ -175,6 +175,9 @@ def replay_family(legs, idx, name, kw, sample, devs, seed):
     vlib.log("listen-faults replay %s: %d transitions with a held address (of %d), %d runs, %d requests, %d probes, "
              "%d violations, %.1fs" % (name, n_kept, g["n_replays"], summ["runs"], summ["requests"], summ["probes"],
                                        summ["violations"], summ["wall_s"]))
+    if summ.get("skipped", 0) * 20 > max(summ["runs"], 1):
+        raise vlib.ToolError("listen-faults replay %s inconclusive: %d of %d runs skipped (their addresses were in use by "
+                             "another process)" % (name, summ["skipped"], summ["runs"]))
     seen = set()
     for v in out:
         if v.get("kind") == "violation" and v["class"] not in seen:
@@ -236,11 +239,15 @@ def leg_trace(legs):
         trace = os.path.join(legs.wd, "lf_trace_%d.ndjson" % c)
         out = vlib.run_harness(legs.bins["drive_workerctl"],
                                ["--seed", str(vlib.seed() * 6007 + c), "--runs", str(min(chunk, n_runs - c)), "--threads", "8",
-                                "--out", trace, "--index-base", str(1700000 + c), "--scenario", "fault"], timeout=1200)
+                                "--out", trace, "--index-base", str(100000 + c), "--scenario", "fault"], timeout=1200)
         summ = [o for o in out if o.get("kind") == "summary"]
         if not summ:
             raise vlib.ToolError("drive_workerctl --scenario fault produced no summary")
         summ = summ[0]
+        skipped = summ["exits"].get("skipped", 0)
+        if skipped * 20 > summ["runs"]:
+            raise vlib.ToolError("listen-faults trace leg inconclusive: %d of %d runs skipped (their addresses were in use by "
+                                 "another process)" % (skipped, summ["runs"]))
         r = vlib.tlc_trace("Trace_WorkerCtl", tcfg, PID, trace, timeout=2400)
         legs.tlc.append(r)
         events += summ["events"]
@@ -248,7 +255,7 @@ def leg_trace(legs):
         with open(trace) as f:
             refused += sum(1 for l in f if '"ev":"cmd"' in l and '"k":"Activate"' in l and '"failure":1' in l)
         if judge(legs, r, trace, summ, str(c)):
-            accepted += summ["runs"]
+            accepted += summ["runs"] - skipped
             if c == 0 and not canary_rejected(legs, tcfg, trace):
                 raise vlib.ToolError("listen-faults: trace validation accepted a trace whose hold event was removed (binding is vacuous)")
     if refused == 0:
